@@ -75,6 +75,7 @@ def strat_case(draw, tier):
             # a pure-jump model of infinite variation: the chain's diffusion part is then the small-jump substitute only
             "infinite_variation": draw(st.sampled_from([False, False, True])),
             "method": draw(st.sampled_from(["INVERSION", "BINARYSEARCHTREEADAPTED1D", "ALIAS", "BINARYSEARCHTREE"])),
+            "script_the_uniforms": draw(st.booleans()),
             "level": draw(st.integers(1, 2))}
 
 
@@ -92,7 +93,17 @@ def _script(proc_like, case, normal_script):
         return dt * np.array(f, dtype=float)
 
     proc_like.nb_jump_dt = nb_jump_dt
-    proc_like.jump_times_from_nb_of_jumps = jump_times_from_nb_of_jumps
+    if case.get("script_the_uniforms"):
+        # the library's own draw of the jump times stays in place (it orders them); the uniforms behind it are scripted,
+        # handed over in decreasing order: whoever is in charge of ordering them has to have done it
+        def random_sample(size=None):
+            f = fr.popleft()
+            assert size is None or len(f) == int(np.prod(size))
+            return np.array(f[::-1], dtype=float)
+
+        np.random.random_sample = random_sample
+    else:
+        proc_like.jump_times_from_nb_of_jumps = jump_times_from_nb_of_jumps
 
 
 def _extend(ws, n=600):
@@ -210,6 +221,7 @@ def body(case):
         patched.append((module, module.np.random.normal))
 
     orig_normal = np.random.normal
+    orig_random_sample = np.random.random_sample
     np.random.normal = normal
     try:
         if sim == "levy":
@@ -319,6 +331,7 @@ def body(case):
         return out
     finally:
         np.random.normal = orig_normal
+        np.random.random_sample = orig_random_sample
 
 
 def classify(case):
@@ -444,6 +457,7 @@ def body_copula(case):
     method = SamplingMethod[case["copula_method"]]
     normal = _Normal(_extend(case["ws"]))
     orig_normal = np.random.normal
+    orig_random_sample = np.random.random_sample
     np.random.normal = normal
     try:
         coupled = case["sim"] == "copula-coupling"
@@ -551,6 +565,7 @@ def body_copula(case):
             out.append(Violation(f"{tag}/scripted-states-not-all-used", f"{len(incs)} left; {detail}"))
     finally:
         np.random.normal = orig_normal
+        np.random.random_sample = orig_random_sample
     return out
 
 
